@@ -116,6 +116,12 @@ func main() {
 				fmt.Printf("%d %s\n", n, gvc.FuncName(fn))
 			}
 		}
+	case "replay":
+		fs := flag.NewFlagSet("replay", flag.ExitOnError)
+		repo := fs.String("repo", "/repo", "repository")
+		file := fs.String("file", "", "replay file")
+		fs.Parse(os.Args[2:])
+		os.Exit(gvc.ReplayFile(*repo, *file))
 	case "verify":
 		fs := flag.NewFlagSet("verify", flag.ExitOnError)
 		verbose := fs.Bool("v", false, "verbose")
